@@ -564,7 +564,7 @@ func c36reflectGuard(c *Ctx, m *Module) {
 					c.Undecided(rule, con, call.Pos(), m, "reflect.TypeOf(x) is nil for a nil interface: need a guard on x")
 					continue
 				}
-				nonNil := c36nonNilFact(g.FactsAt(l), a)
+				nonNil := c36nonNilFact(append(g.FactsAt(l), c36shortCircuitFacts(f, call)...), a)
 				if nonNil && !c36rootStable(f, a) {
 					c.Undecided(rule, con, call.Pos(), m, "the guarded variable is reassigned in the function: the guard may not cover this use")
 					continue
@@ -627,7 +627,7 @@ func c36codecCallGuard(c *Ctx, m *Module) {
 				c.Check(fromFind || c36nonNilFact(g.FactsAt(l), call.Fun), rule, con, call.Pos(), m, "entry comes from decodeFind (decode != nil)", "decode is called on an entry that neither comes from decodeFind nor is tested for a nil decoder")
 				continue
 			}
-			nonNil := c36nonNilFact(g.FactsAt(l), call.Fun)
+			nonNil := c36nonNilFact(append(g.FactsAt(l), c36shortCircuitFacts(f, call)...), call.Fun)
 			if nonNil && !c36rootStable(f, call.Fun) {
 				c.Undecided(rule, con, call.Pos(), m, "the guarded variable is reassigned in the function")
 				continue
